@@ -8,6 +8,7 @@ Theorems here hold for **all** strings of the stated classes.
 -/
 import Pastel.Model.Parser
 import Mathlib.Data.List.TakeWhile
+import Pastel.Lemmas.Turns
 
 namespace Pastel.C01
 open Pastel Pastel.P
@@ -376,5 +377,20 @@ theorem all_tags_no_panic (s : List Char) :
    tagNoCase_oklab_no_panic s⟩
 
 end nopanic
+
+/-! ### angles reduced modulo a turn -/
+
+/-- **`lch()` / `hsl()` angles are reduced modulo a turn** (exact arithmetic, every integer number
+of turns `k`, every angle): the colour `from_lch` builds from `h + 360·k` is the colour it builds
+from `h`, and the colour `from_hsla` builds from `h + 360·k` has the float channels of the one
+built from `h`. -/
+theorem angles_mod_turn (x y h al : ℝ) (k : ℤ) :
+    fromLch x y (h + 360 * k) al = fromLch x y h al ∧
+    toRgbaFloat (fromHsla (h + 360 * k) x y al) = toRgbaFloat (fromHsla h x y al) := by
+  refine ⟨fromLch_whole_turns x y h al k, ?_⟩
+  refine toRgbaFloat_whole_turns (fromHsla h x y al) (fromHsla (h + 360 * k) x y al) k ?_ rfl rfl rfl
+  show hueFrom (h + 360 * k) = hueFrom h + 360 * k
+  unfold hueFrom
+  simp only [real_isFinite, if_true]
 
 end Pastel.C01
